@@ -16,7 +16,7 @@ RULE = {"C18": "units: all 64 ordered triples of the four defined units x a valu
                "AnalogInput, random V / Vcc / calibration pressure incl. 0, negatives, inf and Vcc=0. Non-trivial = source and "
                "target unit differ and value != 0 (units), reading > 0 (sensors); distinct = distinct (units, value) / "
                "(sensor, reading, parameters)."}
-REQUIRED = {"C18": {"triple-checked": 64, "user-chain-checked": 300, "named-ratio": 3, "sonar-pulse": 400, "sonar-analog": 400,
+REQUIRED = {"C18": {"triple-checked": 64, "user-chain-checked": 300, "named-ratio": 3, "sonar-pulse": 400, "sonar-analog": 400, "sonar-user-defined-output-unit": 100,
                     "pressure-positive": 400, "pressure-floor": 20, "pressure-never-raises": 400, "pressure-vcc-zero": 5,
                     "calibrate-roundtrip": 300}}
 ASSUMPTIONS = {"C18": ["results whose exact rational value lies outside [1e-290, 1e290] are not compared (overflow/underflow is 'floating-point rounding')",
@@ -198,6 +198,20 @@ def sensor_objects():
                 _S["pulse"][un] = (p, stub)
                 a = sonar.MaxSonarEZAnalog(i, uo) if un != "inch" else sonar.MaxSonarEZAnalog(i)
                 _S["analog"][un] = (a, AnalogInputSim(a.analog))
+        # user-defined output units (hung under different stock units; some share their local factor with a stock unit)
+        user = {}
+        for uname, (base, k) in {"centifoot": ("foot", 100), "twelfth_inch": ("inch", 12), "twelfth_meter": ("meter", 12),
+                                 "kilo_cm": ("centimeter", Fraction(1, 1000))}.items():
+            kf = float(k)
+            user[uname] = U.Unit(base_unit=unit_objs[base], base_to_unit=(lambda x, kf=kf: x * kf), unit_to_base=(lambda x, kf=kf: x / kf))
+            F[uname] = F[base] / Fraction(k)
+        _S["units"].update(user)
+        with contextlib.redirect_stdout(io.StringIO()):
+            for i, (un, uo) in enumerate(user.items()):
+                p = sonar.MaxSonarEZPulseWidth(4 + i, uo)
+                stub = _Counter()
+                p.counter = stub
+                _S["pulse"][un] = (p, stub)
         _S["pressure"] = []
         for ch, args in ((4, ()), (5, (3.3,)), (6, (12,))):
             s = ps.REVAnalogPressureSensor(ch, *args)
@@ -220,6 +234,8 @@ def run_sensor_case(acc, case):
         exp = Fraction(case["x"]) / Fraction("0.000147") * F["inch"] / F[case["unit"]]
         acc.checks += 1
         acc.ev("sonar-pulse")
+        if case["unit"] not in ("meter", "centimeter", "foot", "inch"):
+            acc.ev("sonar-user-defined-output-unit")
         if case["x"] > 0:
             acc.nontrivial.add(stable_hash(["pulse", case["unit"], repr(case["x"])]))
         if not _close(got, exp, 64):
@@ -289,7 +305,10 @@ def run_sensor_case(acc, case):
 
 def gen_sensor_case(rng):
     r = rng.random()
+    sensor_objects()
     unit = rng.choice(list(F))
+    if r >= 0.3 and unit not in ("meter", "centimeter", "foot", "inch"):
+        unit = rng.choice(["meter", "centimeter", "foot", "inch"])        # only pulse-width sensors exist for user-defined units
     if r < 0.3:
         x = rng.choice([0.0, 0.000147, 1e-6, 0.03, rng.uniform(0, 0.06), 10 ** rng.uniform(-7, 0)])
         return {"kind": "pulse", "unit": unit, "x": x}
